@@ -144,6 +144,19 @@ CLAIMED = {
         ref="DESIGN.md §6 C08",
         technique="Lean 4 proof (failure invariants of the runner) + fault-injection correspondence in fresh processes",
     ),
+    "C12": dict(
+        text="Proved in Lean: sorting a set of port references by a key that identifies its members yields the same list for every "
+        "enumeration order of the set (any permutation — the model of CPython's address- and seed-dependent set iteration), so anything "
+        "computed from portref.ordered() — the order of an instance's connections, invented names — is the same in every process "
+        "(order_independent, computed_from_ordered, ordered_perm). The runtime facts no model can exhibit (id()/seed based hashing, "
+        "allocation history, protobuf determinism, md5) are decided by correspondence: every generated design and a corpus where one "
+        "bundle feeds several ports of an instance, run in N fresh interpreters with different PYTHONHASHSEED and random unrelated "
+        "allocation/elaboration first; package bytes and spice/spectre/verilog text must be identical.",
+        note="The theorem covers the iteration sites routed through portref.ordered(); any other hash-order dependence can only be found by "
+        "the multi-interpreter runs (8 seeds quick, 48 thorough).",
+        ref="DESIGN.md §6 C12",
+        technique="Lean 4 proof (permutation invariance of sorting by an identifying key) + multi-interpreter differential runs",
+    ),
 }
 NOT_YET = {}
 
